@@ -22,7 +22,7 @@ TEXT = {
          "contract-based deductive verification (Verus) of the real list.rs bodies: rep invariant + abstract Seq view"),
  "C06": ("proof", "4.2", "Verus proves the frame postcondition 'Err => the four session component views are those on entry' on the real Context::interpret_with_settings (whole body incl. the on-demand currency block), with every callee modelled as havoc on its receiver. 'All histories' reduces to one call by induction over the history.",
          "contract-based deductive verification (Verus): frame postcondition on the real interpret_with_settings"),
- "C02": ("other", "4.2 / 4.14", "PARTIAL (two clauses). (1) A rejected input is rejected as a whole before any statement runs (prints nothing, interpreter untouched): postcondition of the real interpret_with_settings. (2) Constraint GENERATION and the store: Verus proves on the real type-checker text that a constraint is dropped only when it holds outright (two closed types that differ are refuted on the spot: Constraint::try_trivial_resolution against a spec function), that ConstraintSet::add keeps every constraint that is not trivially satisfied, and that addition / subtraction / conversion / ordering comparisons (the closure get_type_and_assert_equal_dtypes), == and !=, && and ||, unary minus / factorial / !, if-then-else and annotated definitions (_elaborate_inner) each demand exactly the equations the statement lists (equal operand types, Bool conditions, equal branches, annotated = deduced) or fail at once, and that the type reported for a product / quotient of closed dimension types is the product / quotient of the operand types (DType arithmetic itself uninterpreted). NOT covered: solving the constraints (ConstraintSet::solve, Gaussian elimination over exponents), powers, function calls, list elements, struct fields, return types, and that the reported type equals dimensional analysis.",
+ "C02": ("other", "4.2 / 4.14", "PARTIAL (two clauses). (1) A rejected input is rejected as a whole before any statement runs (prints nothing, interpreter untouched): postcondition of the real interpret_with_settings. (2) Constraint GENERATION and the store: Verus proves on the real type-checker text that a constraint is dropped only when it holds outright (two closed types that differ are refuted on the spot: Constraint::try_trivial_resolution against a spec function), that ConstraintSet::add keeps every constraint that is not trivially satisfied, and that addition / subtraction / conversion / ordering comparisons (the closure get_type_and_assert_equal_dtypes), == and !=, && and ||, unary minus / factorial / !, if-then-else and annotated definitions (_elaborate_inner) each demand exactly the equations the statement lists (equal operand types, Bool conditions, equal branches, annotated = deduced) or fail at once, that the type reported for a product / quotient / power (compile-time exponent) of closed dimension types is the product / quotient / power of the operand types (DType arithmetic itself uninterpreted), and that exactly the literals 0, inf and NaN are dimension-polymorphic. NOT covered: solving the constraints (ConstraintSet::solve, Gaussian elimination over exponents), the dispatch on the operator inside the BinaryOperator arm, function calls, list elements, struct fields, return types, and that the reported type equals dimensional analysis.",
          "contract-based deductive verification (Verus): postcondition on interpret_with_settings; arm- and block-level extraction of the real elaborate_expression arms and of the constraint store against spec predicates over an abstract constraint log"),
  "C11": ("proof", "4.3", "Verus proves the real Quantity::{values_in_common_unit, eq, partial_cmp, partial_cmp_preserve_nan} and Unit::smaller_unit equal to spec functions written from the statement; symmetry of ==, antisymmetry of the ordering, NaN => NanOperand and trichotomy are Verus lemmas over those specs, using only IEEE-754 axioms that Kani proves on the real Number impls over all f64 bit patterns (thorough tier).",
          "contract-based deductive verification (Verus contracts + lemmas; Kani for the IEEE axioms on the real Number impls)"),
